@@ -58,6 +58,29 @@ func ruleROReflect(c *Ctx, r *Report) {
 				r.Check(ok, key, pos, "sorts a slice owned by this function", fmt.Sprintf("%s sorts %s in place, which this function does not own", f.Name, types.ExprString(call.Args[0])))
 			case isCall:
 				name := reflectMethodName(f, call.Fun.(*ast.SelectorExpr).X)
+				if name == "" {
+					// the method value is a parameter (an extracted "call the method" helper):
+					// every call site must pass a read-only generated method.
+					if pi := paramIndex(f, ObjOf(info, call.Fun.(*ast.SelectorExpr).X)); pi >= 0 && f.Obj != nil {
+						var names []string
+						all := true
+						for _, g := range c.AllFuncs(strings.TrimPrefix(f.Pkg.PkgPath, modPath+"/")) {
+							for _, cs := range CallsIn(g.Info(), g.Decl.Body, FullName(f.Obj)) {
+								nm := ""
+								if pi < len(cs.Args) {
+									nm = reflectMethodName(g, cs.Args[pi])
+								}
+								if !roReflectMethods[nm] {
+									all = false
+								}
+								names = append(names, nm)
+							}
+						}
+						if all && len(names) > 0 {
+							name = names[0]
+						}
+					}
+				}
 				r.Check(roReflectMethods[name], key, pos, "reflective call of read-only generated method "+name,
 					fmt.Sprintf("%s reflectively calls method %q from a read-only API; only read-only generated methods (%v) are allowed", f.Name, name, keysOf(roReflectMethods)))
 			}
